@@ -2,6 +2,7 @@ package exec
 
 import (
 	"fmt"
+	"os"
 	"go/token"
 	"go/types"
 	"sort"
@@ -89,7 +90,8 @@ type Stats struct {
 
 type frame struct {
 	fn        *ssa.Function
-	locals    map[ssa.Value]Value
+	locals    []Value
+	lay       map[ssa.Value]int
 	env       []Value
 	defers    []func()
 	visits    map[*ssa.BasicBlock]int
@@ -137,6 +139,7 @@ type Machine struct {
 	constCache map[*ssa.Const]Value
 	pkgCache   map[string]*ssa.Package
 	varCache   map[int][]int
+	layouts    map[*ssa.Function]map[ssa.Value]int
 	varByID    map[int]*sym.Term
 	qcache     map[string]bool
 	acache     map[string]smt.Result
@@ -154,6 +157,7 @@ type Machine struct {
 	WantScripts bool
 	Bounds      map[string]int
 	Debug       bool
+	DebugDepth  int
 }
 
 type methKey struct {
@@ -173,7 +177,7 @@ type Intrinsic func(m *Machine, fn *ssa.Function, args []Value) Value
 func NewMachine(p *Program, solver *smt.Solver) *Machine {
 	m := &Machine{P: p, ctx: sym.NewCtx(), solver: solver,
 		strCache: map[string]*Str{}, fnInfo: map[*ssa.Function]*fnInfo{},
-		methCache: map[methKey]*ssa.Function{}, constCache: map[*ssa.Const]Value{}, pkgCache: map[string]*ssa.Package{}, varCache: map[int][]int{}, varByID: map[int]*sym.Term{}, qcache: map[string]bool{}, acache: map[string]smt.Result{}, sumMemo: map[string]*summary{},
+		methCache: map[methKey]*ssa.Function{}, constCache: map[*ssa.Const]Value{}, pkgCache: map[string]*ssa.Package{}, varCache: map[int][]int{}, layouts: map[*ssa.Function]map[ssa.Value]int{}, varByID: map[int]*sym.Term{}, qcache: map[string]bool{}, acache: map[string]smt.Result{}, sumMemo: map[string]*summary{},
 		MaxSteps: 3_000_000, MaxVisits: 20000, Bounds: map[string]int{}}
 	m.emptyStr = &Str{}
 	m.Stats.FuncsEncoded = map[string]int{}
@@ -636,17 +640,21 @@ func (m *Machine) callFn(fn *ssa.Function, args []Value, env []Value) Value {
 
 func (m *Machine) callFnBody(fn *ssa.Function, args []Value, env []Value) Value {
 	fi := m.info(fn)
+	if m.Debug && m.depth < m.DebugDepth {
+		fmt.Fprintf(os.Stderr, "%s%s steps=%d pc=%d\n", strings.Repeat(" ", m.depth), fi.name, m.steps, len(m.pc))
+	}
 	m.depth++
 	if m.depth > 400 {
 		m.end("unwind", "call depth > 400 in "+fi.name)
 	}
 	m.Stats.FuncsEncoded[fi.name]++
-	fr := &frame{fn: fn, locals: make(map[ssa.Value]Value, 16), env: env}
+	lay := m.layout(fn)
+	fr := &frame{fn: fn, locals: make([]Value, len(lay)), lay: lay, env: env}
 	for i, p := range fn.Params {
-		fr.locals[p] = args[i]
+		fr.locals[lay[p]] = args[i]
 	}
 	for i, fv := range fn.FreeVars {
-		fr.locals[fv] = env[i]
+		fr.locals[lay[fv]] = env[i]
 	}
 	res := m.runFrame(fr)
 	m.depth--
@@ -696,6 +704,28 @@ func (m *Machine) runDefers(fr *frame) {
 		fr.defers = fr.defers[:len(fr.defers)-1]
 		d()
 	}
+}
+
+func (m *Machine) layout(fn *ssa.Function) map[ssa.Value]int {
+	if l, ok := m.layouts[fn]; ok {
+		return l
+	}
+	l := map[ssa.Value]int{}
+	for _, p := range fn.Params {
+		l[p] = len(l)
+	}
+	for _, p := range fn.FreeVars {
+		l[p] = len(l)
+	}
+	for _, b := range fn.Blocks {
+		for _, ins := range b.Instrs {
+			if v, ok := ins.(ssa.Value); ok {
+				l[v] = len(l)
+			}
+		}
+	}
+	m.layouts[fn] = l
+	return l
 }
 
 func (m *Machine) lookupMethod(t types.Type, meth *types.Func) *ssa.Function {
@@ -801,9 +831,13 @@ func (m *Machine) get(fr *frame, v ssa.Value) Value {
 	case *ssa.Builtin:
 		m.notEnc("builtin as value %s", x.Name())
 	}
-	r, ok := fr.locals[v]
-	if !ok {
-		panic(fmt.Sprintf("unset SSA value %s in %s", v.Name(), fr.fn))
+	r := fr.locals[fr.lay[v]]
+	if r == nil {
+		if _, isCall := v.(*ssa.Call); !isCall {
+			if _, known := fr.lay[v]; !known {
+				panic(fmt.Sprintf("unset SSA value %s in %s", v.Name(), fr.fn))
+			}
+		}
 	}
 	return r
 }
@@ -829,18 +863,18 @@ func (m *Machine) exec(fr *frame) {
 			case *ssa.Phi:
 				for k, p := range block.Preds {
 					if p == prev {
-						fr.locals[i] = m.get(fr, i.Edges[k])
+						fr.locals[fr.lay[i]] = m.get(fr, i.Edges[k])
 						break
 					}
 				}
 			case *ssa.Alloc:
-				fr.locals[i] = Ptr{m.newCell(i.Type().(*types.Pointer).Elem())}
+				fr.locals[fr.lay[i]] = Ptr{m.newCell(i.Type().(*types.Pointer).Elem())}
 			case *ssa.UnOp:
-				fr.locals[i] = m.unop(fr, i)
+				fr.locals[fr.lay[i]] = m.unop(fr, i)
 			case *ssa.BinOp:
-				fr.locals[i] = m.binop(i.Op, m.get(fr, i.X), m.get(fr, i.Y), i.X.Type(), i.Y.Type())
+				fr.locals[fr.lay[i]] = m.binop(i.Op, m.get(fr, i.X), m.get(fr, i.Y), i.X.Type(), i.Y.Type())
 			case *ssa.Call:
-				fr.locals[i] = m.call(fr, &i.Call)
+				fr.locals[fr.lay[i]] = m.call(fr, &i.Call)
 			case *ssa.Store:
 				m.storePtr(m.get(fr, i.Addr), m.get(fr, i.Val))
 			case *ssa.FieldAddr:
@@ -848,41 +882,41 @@ func (m *Machine) exec(fr *frame) {
 				if p.C == nil {
 					m.goPanic("invalid memory address or nil pointer dereference")
 				}
-				fr.locals[i] = Ptr{p.C.Kids[i.Field]}
+				fr.locals[fr.lay[i]] = Ptr{p.C.Kids[i.Field]}
 			case *ssa.Field:
-				fr.locals[i] = m.get(fr, i.X).(*Struct).F[i.Field]
+				fr.locals[fr.lay[i]] = m.get(fr, i.X).(*Struct).F[i.Field]
 			case *ssa.IndexAddr:
-				fr.locals[i] = m.indexAddr(m.get(fr, i.X), m.get(fr, i.Index).(*sym.Term), i.Index.Type())
+				fr.locals[fr.lay[i]] = m.indexAddr(m.get(fr, i.X), m.get(fr, i.Index).(*sym.Term), i.Index.Type())
 			case *ssa.Index:
-				fr.locals[i] = m.index(m.get(fr, i.X), m.get(fr, i.Index).(*sym.Term), i.Index.Type())
+				fr.locals[fr.lay[i]] = m.index(m.get(fr, i.X), m.get(fr, i.Index).(*sym.Term), i.Index.Type())
 			case *ssa.Lookup:
-				fr.locals[i] = m.lookup(fr, i)
+				fr.locals[fr.lay[i]] = m.lookup(fr, i)
 			case *ssa.Slice:
-				fr.locals[i] = m.sliceOp(fr, i)
+				fr.locals[fr.lay[i]] = m.sliceOp(fr, i)
 			case *ssa.MakeInterface:
-				fr.locals[i] = Iface{T: i.X.Type(), V: m.get(fr, i.X)}
+				fr.locals[fr.lay[i]] = Iface{T: i.X.Type(), V: m.get(fr, i.X)}
 			case *ssa.ChangeInterface:
-				fr.locals[i] = m.get(fr, i.X)
+				fr.locals[fr.lay[i]] = m.get(fr, i.X)
 			case *ssa.ChangeType:
-				fr.locals[i] = m.get(fr, i.X)
+				fr.locals[fr.lay[i]] = m.get(fr, i.X)
 			case *ssa.Convert:
-				fr.locals[i] = m.convert(m.get(fr, i.X), i.X.Type(), i.Type())
+				fr.locals[fr.lay[i]] = m.convert(m.get(fr, i.X), i.X.Type(), i.Type())
 			case *ssa.MultiConvert:
-				fr.locals[i] = m.convert(m.get(fr, i.X), i.X.Type(), i.Type())
+				fr.locals[fr.lay[i]] = m.convert(m.get(fr, i.X), i.X.Type(), i.Type())
 			case *ssa.TypeAssert:
-				fr.locals[i] = m.typeAssert(fr, i)
+				fr.locals[fr.lay[i]] = m.typeAssert(fr, i)
 			case *ssa.Extract:
-				fr.locals[i] = m.get(fr, i.Tuple).(Tuple)[i.Index]
+				fr.locals[fr.lay[i]] = m.get(fr, i.Tuple).(Tuple)[i.Index]
 			case *ssa.MakeClosure:
 				env := make([]Value, len(i.Bindings))
 				for k, b := range i.Bindings {
 					env[k] = m.get(fr, b)
 				}
-				fr.locals[i] = &Closure{Fn: i.Fn.(*ssa.Function), Env: env}
+				fr.locals[fr.lay[i]] = &Closure{Fn: i.Fn.(*ssa.Function), Env: env}
 			case *ssa.MakeMap:
 				mt := i.Type().Underlying().(*types.Map)
 				m.mapSeq++
-				fr.locals[i] = Map{&MapObj{ID: m.mapSeq, KT: mt.Key(), VT: mt.Elem()}}
+				fr.locals[fr.lay[i]] = Map{&MapObj{ID: m.mapSeq, KT: mt.Key(), VT: mt.Elem()}}
 			case *ssa.MakeSlice:
 				ln := m.concreteInt(m.get(fr, i.Len), "make len")
 				cp := m.concreteInt(m.get(fr, i.Cap), "make cap")
@@ -890,13 +924,13 @@ func (m *Machine) exec(fr *frame) {
 					m.goPanic("makeslice: len out of range")
 				}
 				et := i.Type().Underlying().(*types.Slice).Elem()
-				fr.locals[i] = Slice{Arr: m.newArrayCell(et, cp), Len: ln, Cap: cp}
+				fr.locals[fr.lay[i]] = Slice{Arr: m.newArrayCell(et, cp), Len: ln, Cap: cp}
 			case *ssa.MapUpdate:
 				m.mapUpdate(m.get(fr, i.Map).(Map), m.get(fr, i.Key), m.get(fr, i.Value))
 			case *ssa.Range:
-				fr.locals[i] = m.rangeInit(m.get(fr, i.X))
+				fr.locals[fr.lay[i]] = m.rangeInit(m.get(fr, i.X))
 			case *ssa.Next:
-				fr.locals[i] = m.rangeNext(m.get(fr, i.Iter).(*Opaque), i)
+				fr.locals[fr.lay[i]] = m.rangeNext(m.get(fr, i.Iter).(*Opaque), i)
 			case *ssa.Defer:
 				m.deferCall(fr, i)
 			case *ssa.RunDefers:
@@ -937,9 +971,9 @@ func (m *Machine) exec(fr *frame) {
 					m.goPanic("slice to array pointer: length mismatch")
 				}
 				if s.Arr == nil {
-					fr.locals[i] = Ptr{}
+					fr.locals[fr.lay[i]] = Ptr{}
 				} else if s.Off == 0 && len(s.Arr.Kids) == n {
-					fr.locals[i] = Ptr{s.Arr}
+					fr.locals[fr.lay[i]] = Ptr{s.Arr}
 				} else {
 					m.notEnc("SliceToArrayPointer with offset")
 				}
